@@ -17,7 +17,7 @@ C07  Selection protocols turn criteria into valid, correct cross configurations 
 import ast
 import re
 
-from sa.astutil import alpha_normalise, inline_temporaries, dump, where, kwargs_of, walk_no_nested, field_of
+from sa.astutil import canon_tree, alpha_normalise, inline_temporaries, dump, where, kwargs_of, walk_no_nested, field_of
 from sa.model import body_nodoc
 from rules import c17
 
@@ -230,7 +230,7 @@ def check_pipeline(prog, rep):
             draw = ["options = numpy.repeat(numpy.arange(len(self.xconfig_decn)), self.xconfig_decn)", "out = tiled_choice(options, size=%s, replace=False, rng=self.rng)" % size]
         tail = (["self.rng.shuffle(out)", "out = self.xconfig_xmap[out, :]", "self.xconfig = out"] if mate
                 else ["outcross_shuffle(out, rng=self.rng)", "axis_shuffle(out, 0, rng=self.rng)", "self.xconfig = out"])
-        want = alpha_normalise(_canon_calls(prog, f, inline_temporaries(ast.parse("\n".join(draw + tail)).body, keep=params)), keep=params)
+        want = alpha_normalise(_canon_calls(prog, f, inline_temporaries(canon_tree(ast.parse("\n".join(draw + tail))).body, keep=params)), keep=params)
         if txt == want:
             rep.ok("R2-pipeline", construct, " ; ".join(want), sample={"configuration": cname, "pipeline": want})
             continue
